@@ -112,6 +112,7 @@ func runCheck(opt *checkOpts) int {
 	}
 	sort.Strings(fkeys)
 	var structural []Result // contract-level failures that need no solver
+	var forwards []string
 	for _, k := range fkeys {
 		fc := repo.cs.Funcs[k]
 		if fc.Pure || fc.Trusted || !fc.hasProp(opt.property) {
@@ -123,6 +124,18 @@ func runCheck(opt *checkOpts) int {
 		if _, ok := repo.funcs[strings.TrimSuffix(k, "!body")]; !ok {
 			structural = append(structural, Result{Obl: Obligation{Name: k + "#contract.missing_function", Clause: k + "#contract.missing_function", Func: k, Pos: fmt.Sprintf("%s:%d", fc.File, fc.Line)}, Verdict: "error",
 				Attempts: []Attempt{{Solver: "govc", Verdict: "error", Out: "the function named by this contract no longer exists in the repository"}}})
+			continue
+		}
+		if fc.Forward != "" {
+			name := k + "#forward[" + fc.Forward + "]"
+			why := checkForward(repo.funcs[k], fc.Forward)
+			r := Result{Obl: Obligation{Name: name, Clause: name, Func: k, Pos: fmt.Sprintf("%s:%d", fc.File, fc.Line)}, Verdict: "unsat", Solver: "structural"}
+			if why != "" {
+				r.Verdict = "error"
+				r.Attempts = []Attempt{{Solver: "govc", Verdict: "error", Out: "the body is not a plain hand-over to " + fc.Forward + ": " + why}}
+			}
+			structural = append(structural, r)
+			forwards = append(forwards, k+" -> "+fc.Forward)
 			continue
 		}
 		units = append(units, unit{key: k})
